@@ -27,7 +27,7 @@ def gen_cases(tier, seed):
         for name in RANDOM_INITS + ["constant_", "ones_", "zeros_"]:
             for si, shp in enumerate(SHAPES):
                 c = {"init": name, "shape": shp, "dtype": ["float32", "float64"][(si + rep) % 2], "req": bool((si + rep) % 3 == 0),
-                     "storage": ["plain", "transposed-view", "plain", "strided-view"][(si // 2 + rep + len(name)) % 4],
+                     "storage": ["plain", "transposed-view", "zeros", "strided-view", "one-zero", "plain"][(si // 2 + rep + len(name)) % 6],
                      "seed": int(rng.integers(2 ** 31)), "np_scalar_args": bool((si + rep + len(name)) % 4 == 0),
                      "under_no_grad": bool((si + rep) % 3 == 0)}
                 if name == "uniform_":
@@ -234,6 +234,10 @@ def run_case(ns, ctx, c):
         elif st == "strided-view" and len(shp) >= 1:
             big_ = np.full(shp[:-1] + (2 * shp[-1],), 7.0, dtype=dt)
             arr = big_[..., ::2]
+        elif st == "zeros":
+            arr = np.zeros(shp, dtype=dt)                 # what the tensor holds before the fill is irrelevant (a tensor from zeros(), a re-initialised layer)
+        elif st == "one-zero":
+            arr = np.full(shp, 7.0, dtype=dt); arr.flat[arr.size // 2] = 0.0
         else:
             arr = np.full(shp, 7.0, dtype=dt)
         return T(arr, requires_grad=c["req"])
@@ -253,6 +257,9 @@ def run_case(ns, ctx, c):
         if name.startswith("xavier"):
             return fn(t, gain=npsc(a["gain"])) if kwform else fn(t, npsc(a["gain"]))
         if name.startswith("kaiming"):
+            if a["nonlinearity"] == "leaky_relu" and c["seed"] % 3 == 0:
+                # the documented default nonlinearity left out (a slope given, nothing else): the default is leaky_relu
+                return fn(t, a=a["a"], mode=a["mode"]) if kwform else (fn(t, a["a"], a["mode"]) if a["mode"] != "fan_in" else fn(t, a["a"]))
             return fn(t, a=a["a"], mode=a["mode"], nonlinearity=a["nonlinearity"]) if kwform else fn(t, a["a"], a["mode"], a["nonlinearity"])
         return fn(t)
     try:
